@@ -111,7 +111,17 @@ fn main() {
                 }
             }
         };
-        let src = if mode == 1 {
+        const SECOND: [&str; 8] = ["[::-1]", "[1:]", "[:-1]", "[::2]", "[-2:]", "[1:-1]", "[-1::-1]", "[0:2]"];
+        let first = if b[2].is_none() {
+            format!("x[{}:{}]", lit(&b[0], "a"), lit(&b[1], "b"))
+        } else {
+            format!("x[{}:{}:{}]", lit(&b[0], "a"), lit(&b[1], "b"), lit(&b[2], "c"))
+        };
+        let src = if (2..34).contains(&mode) {
+            format!("{}[{}]", first, mode - 18)
+        } else if mode >= 100 {
+            format!("{}{}", first, SECOND.get((mode - 100) as usize).copied().unwrap_or("[:]"))
+        } else if mode == 1 {
             format!("x[{}]", lit(&b[0], "a"))
         } else if b[2].is_none() {
             format!("x[{}:{}]", lit(&b[0], "a"), lit(&b[1], "b"))
